@@ -1,4 +1,4 @@
-"""C19 — address text conversion round-trips and agrees with the platform parser (partial, thin).
+"""C19 — address text conversion round-trips and agrees with the platform parser (partial).
 
 Decided (both are literal clauses of the statement):
 R1 "conversion never writes beyond the buffer length it was told": every write through the output buffer is an
@@ -7,10 +7,13 @@ R1 "conversion never writes beyond the buffer length it was told": every write t
 R2 "the result of parsing depends only on the text given": the parsers read no global state, and every element of a
    local array that is read has been written on every path (IPv6: all eight groups present or '::' expanded; IPv4:
    the four octets only after sscanf reported four conversions)
-Not decided: round-trip equality, agreement with inet_pton.
+R1/R2 also carry two grammar tables from RFC 4291 2.2 (which addresses get the embedded-IPv4 text form; where a dotted quad
+   is accepted) and the family dispatch of lrtr_ip_str_to_addr.
+Not decided: round-trip equality and agreement with inet_pton as such.
 """
 from engine import es, flow, vf
 from engine.pdb import AnalysisBroken
+from specs.C01 import _pred_under
 
 INET6_ADDRSTRLEN = 46
 # libc functions whose result is a function of their arguments (they may write errno)
@@ -80,6 +83,71 @@ def r1(ctx):
     for c in fn.calls(("lrtr_ipv4_addr_to_str", "lrtr_ipv6_addr_to_str")):
         ctx.check(vf.expr(fn, c.args[1]) == ("arg", 1) and vf.expr(fn, c.args[2]) == ("arg", 2), "C19.R1", "dispatch:%s" % c.callee, c.loc(),
                   "buffer and length handed through unchanged", key="C19.R1:dispatch:%s" % c.callee)
+
+
+def r1_embedded_form(ctx):
+    """the '::[ffff:]a.b.c.d' form prints only the last 32 bits (and whether bits 64..95 are non-zero): it may be chosen only for
+    addresses that this determines - the zero run starts at group 0 and covers six groups, or five with group 5 == 0xffff"""
+    pdb = ctx.pdb
+    fn = pdb.fn("lrtr_ipv6_addr_to_str")
+
+    def var_phis(name):
+        return {i.id for i in fn.all_insts() if i.op == "phi" and i.d.get("var") == name}
+    pos, ln = var_phis("bestpos"), var_phis("bestlen")
+    loops = fn.loops()
+    inloop = set().union(*loops.values()) if loops else set()
+    tests = [i for i in fn.all_insts() if i.op == "icmp" and i.block.id not in inloop and
+             any(x[0] == "phi" and x[1] in pos for x in (vf.expr(fn, i["a"]), vf.expr(fn, i["b"]))) and ("c", 0) in (vf.expr(fn, i["a"]), vf.expr(fn, i["b"]))]
+    dotted = []
+    for c in fn.calls("sprintf"):
+        fe = vf.expr(fn, c.args[1])
+        g = pdb.glob_in(fn.unit, fe[1]) if fe[0] == "g" else None
+        if g and isinstance(g.get("init"), dict) and "%d.%d" in (g["init"].get("str") or ""):
+            dotted.append(c)
+    if not pos or not ln or len(tests) != 1 or not dotted:
+        ctx.not_decided("choice of the embedded-IPv4 text form in lrtr_ipv6_addr_to_str (its zero-run variables were not identified)")
+        return
+    t0 = tests[0]
+
+    def num(pred, a, b):
+        return {"eq": a == b, "ne": a != b, "slt": a < b, "sle": a <= b, "sgt": a > b, "sge": a >= b, "ult": a < b, "ule": a <= b, "ugt": a > b, "uge": a >= b}[pred]
+    n = 0
+    for p0 in (0, 1, -1):
+        for blen in (4, 5, 6, 7):
+            for w2 in (0xffff, 0x8000, 0x1ffff, 0):
+                n += 1
+                reached = []
+
+                def oracle(inst, pred, a, b, E, p0=p0, blen=blen, w2=w2):
+                    for x, y, sw in ((a, b, False), (b, a, True)):
+                        if y[0] != "c" or not isinstance(y[1], int):
+                            continue
+                        v = None
+                        if x[0] == "phi" and x[1] in pos:
+                            v = p0
+                        elif x[0] == "phi" and x[1] in ln:
+                            v = blen
+                        elif x[0] == "load" and x[1][0] in ("idx", "ptradd") and vf.root_of(x[1]) == ("arg", 0) and x[1][2] == ("c", 2):
+                            v = w2
+                        if v is not None:
+                            return num(pred, v, y[1]) if not sw else num(pred, y[1], v)
+                    return None
+
+                def classify(inst, E, st):
+                    if inst.op == "call" and inst in dotted:
+                        reached.append(1)
+                        return flow.KILL
+                    if inst.op == "br" and inst.block.id in inloop:
+                        return flow.KILL
+                    return None
+                es.count_effects(fn, pdb, classify, None, oracle=oracle, start_block=t0.block.id, cap=64)
+                allowed = p0 == 0 and (blen == 6 or (blen == 5 and w2 == 0xffff))
+                if reached and not allowed:
+                    ctx.violation("C19.R1", "embedded-form[run starts at %d, %d zero groups, bits 64..95 = %#x]" % (p0, blen, w2), t0.loc(),
+                                  "the dotted form is chosen for an address it does not determine: the parser reads the text back as another address",
+                                  key="C19.R1:embedded-form")
+                    return
+    ctx.ok("C19.R1", "embedded-form-only-for-mapped-and-compatible-addresses", t0.loc(), "%d cells (start of the zero run x its length x bits 64..95)" % n)
 
 
 def r2(ctx, retsets):
@@ -165,6 +233,48 @@ def r2(ctx, retsets):
     move = [s_ for s_ in exp if vf.expr(fn, s_["val"])[0] == "load" and vf.root_of(vf.expr(fn, s_["val"])[1]) == W]
     ctx.check(bool(zero) and bool(move), "C19.R2", "ipv6:'::'-expansion-writes-all", (exp[0].loc() if exp else "%s:%d" % (fn.relfile, fn.line)),
               "expansion shifts the trailing groups and zero-fills the gap: shift %s, zero-fill %s" % (bool(move), bool(zero)), key="C19.R2:ipv6:expansion")
+    # embedded dotted quad (RFC 4291 2.2 form 3, x:x:x:x:x:x:d.d.d.d): it stands for the last two groups, so it must be accepted
+    # after exactly six groups, or after fewer than six when a '::' was seen; after more than six it must be refused (the two
+    # groups it adds would not fit).  Decision table over the group counter and the '::' marker at the '.' test.
+    dots = [i for i in fn.all_insts() if i.op == "icmp" and i["pred"] in ("eq", "ne") and ("c", 46) in (vf.expr(fn, i["a"]), vf.expr(fn, i["b"]))]
+    quad_calls = fn.calls("lrtr_ipv4_str_to_addr")
+    if len(dots) != 1 or not quad_calls:
+        ctx.not_decided("position of an embedded dotted quad in lrtr_ipv6_str_to_addr (the '.' test or the IPv4 sub-parser call was not found)")
+    else:
+        dot = dots[0]
+        for rel in ("lt", "eq", "gt"):
+            for fill in (True, False):
+                def oracle(inst, pred, a, b, E, rel=rel, fill=fill):
+                    if inst.id == dot.id:
+                        return pred == "eq"
+                    for x, y, sw in ((a, b, False), (b, a, True)):
+                        if x[0] == "phi" and x[1] in cnt and y == ("c", 6):
+                            return _pred_under(pred, rel, sw)
+                        if x[0] == "phi" and x[1] in hf and y[0] == "c" and y[1] in (0, -1):
+                            val = 3 if fill else -1
+                            if sw:
+                                return None
+                            return {"sge": val >= y[1], "sgt": val > y[1], "slt": val < y[1], "sle": val <= y[1], "ne": val != y[1], "eq": val == y[1]}.get(pred)
+                    return None
+                seen = []
+
+                def classify(inst, E, st):
+                    if inst.op == "call" and inst.callee == "lrtr_ipv4_str_to_addr":
+                        seen.append("quad")
+                        return flow.KILL
+                    if inst.op == "store" and vf.root_of(vf.expr(fn, inst["ptr"])) == W:
+                        seen.append("group")
+                        return flow.KILL
+                    return None
+                outs_q, _f = es.count_effects(fn, pdb, classify, None, oracle=oracle, start_block=dot.block.id, cap=64)
+                refused = any(flow.av_single(o["ret"]) == -1 for o in outs_q)
+                name = "dotted-quad[%s groups before it, '::' %s]" % ({"lt": "fewer than 6", "eq": "6", "gt": "more than 6"}[rel], "seen" if fill else "not seen")
+                if (rel == "eq" and not fill) or (rel == "lt" and fill):
+                    ctx.check(seen == ["quad"] and not refused, "C19.R2", name, dot.loc(), "handed to the IPv4 sub-parser: %s; refused: %s (must be accepted)" % (seen == ["quad"], refused),
+                              key="C19.R2:quad:%s:%s" % (rel, fill))
+                elif rel == "gt":
+                    ctx.check("quad" not in seen, "C19.R2", name, dot.loc(), "handed to the IPv4 sub-parser: %s (must be refused: no room for two more groups)" % ("quad" in seen),
+                              key="C19.R2:quad:%s:%s" % (rel, fill))
     # family dispatch: a text with a ':' goes to the IPv6 parser, any other to the IPv4 parser; nothing is rejected or accepted
     # without asking the parser, and the parser's verdict is the result (':' is in every IPv6 text and in no IPv4 text)
     fd = pdb.fn("lrtr_ip_str_to_addr")
@@ -217,6 +327,7 @@ def r2(ctx, retsets):
 def check(ctx):
     retsets = flow.return_sets(ctx.pdb)
     r1(ctx)
+    r1_embedded_form(ctx)
     r2(ctx, retsets)
     ctx.not_decided("round trip: every address converted to text parses back to the same address")
     ctx.not_decided("agreement with inet_pton on every string it accepts")
@@ -244,4 +355,10 @@ WITNESSES = [
      "old": "\tif (!strchr(str, ':')) {", "new": "\tif (str[0] >= '0' && str[0] <= '9' && strchr(str, '.')) {"},
     {"id": "C19.w9-parser-consults-errno", "rule": "C19.R2", "file": V4,
      "old": "\tuint8_t buff[4];\n\n\tif (sscanf(str,", "new": "\tuint8_t buff[4];\n\textern int *__errno_location(void);\n\n\tif (*__errno_location() == 34)\n\t\treturn -1;\n\tif (sscanf(str,"},
+    {"id": "C19.w10-embedded-form-for-any-five-zero-groups", "rule": "C19.R1", "file": V6,
+     "old": "\tif (!bestpos && ((bestlen == 5 && a[2] == 0xffff) || bestlen == 6))", "new": "\tif (!bestpos && (bestlen == 5 || bestlen == 6))"},
+    {"id": "C19.w11-dotted-quad-only-after-double-colon", "rule": "C19.R2", "file": V6,
+     "old": "\t\t} else if (*a == '.' && (i == 6 || (i < 6 && hfil >= 0))) {", "new": "\t\t} else if (*a == '.' && i <= 6 && hfil >= 0) {"},
+    {"id": "C19.w12-dotted-quad-after-seven-groups", "rule": "C19.R2", "file": V6,
+     "old": "\t\t} else if (*a == '.' && (i == 6 || (i < 6 && hfil >= 0))) {", "new": "\t\t} else if (*a == '.' && (i >= 6 || hfil >= 0)) {"},
 ]
